@@ -164,6 +164,13 @@ pub fn fill_script(f: Fill, c: u32, l: u32) -> Vec<Op> {
             }
             s.push(cup(l - 1, c - 1));
             s.push(Op::Draw("\u{30a4}".into()));
+            // lead intact, its placeholder overwritten by a narrow character
+            if l >= 2 && c >= 3 {
+                s.push(cup(l - 1, 0));
+                s.push(Op::Draw("\u{30a2}".into()));
+                s.push(cup(l - 1, 1));
+                s.push(Op::Draw("p".into()));
+            }
             if l >= 3 && c >= 4 {
                 s.push(cup(1, 0));
                 s.push(Op::Draw("ab".into()));
